@@ -95,7 +95,7 @@ def _count(ev, events, src, fam, fname, depth=0):
             c = e[2]
             if fam(c) and e[3]:
                 b, p = sroot(ev, e[3][0])
-                if src.exact(b, p, ev):
+                if (src.match_term(ev, e[3][0]) if hasattr(src, "match_term") else src.exact(b, p, ev)):
                     total += 1
                     shape = ("call", c.name)
                     sites.append(ev.loc(e[1]))
@@ -109,11 +109,119 @@ def _count(ev, events, src, fam, fname, depth=0):
                     shape = sh
                     sites.extend(ss)
             else:
+                idx = _index_loop(ev, L, src)
+                if idx:
+                    # `for i in 0..xs.len() { xs[i].f() }`: a full traversal of xs by index
+                    counts = set()
+                    isrc = _IndexedSrc(src, L.elem)
+                    sub_sites = []
+                    for it in L.iters:
+                        if it.end in ("done", "diverge", "unreachable"):
+                            continue
+                        if it.end in ("break", "return"):
+                            raise _Bad("traversal of the source at %s is not full: it can stop early (%s)" % (Q.site_of(ev, L), it.end), Q.site_of(ev, L))
+                        n, sh, ss = _count(ev, it.path.events, isrc, fam, fname, depth + 1)
+                        counts.add(n)
+                        if n:
+                            shape = ("for", sh)
+                            sub_sites.extend(ss)
+                    if counts == set([1]):
+                        total += 1
+                        sites.append(Q.site_of(ev, L))
+                        sites.extend(sub_sites)
+                    elif not counts <= set([0]):
+                        raise _Bad("per-element coverage inside the index loop at %s is %s (expected exactly 1)" % (Q.site_of(ev, L), sorted(counts)), Q.site_of(ev, L))
+                    continue
                 for it in L.iters:
                     n, sh, ss = _count(ev, it.path.events, src, fam, fname, depth + 1)
                     if n:
                         raise _Bad("%s is called on the source inside a loop over something else (%s)" % (fname, Q.site_of(ev, L)), Q.site_of(ev, L))
     return total, shape, sites
+
+
+def _index_loop(ev, L, src):
+    """L runs over 0..len(the source)."""
+    rng = Q.range_of(L)
+    if rng is None or rng[0] != ("int", 0) or L.kind == "while" or L.stages or L.elem is None or L.elem[0] == "countdown":
+        return False
+    hi = Q.strip(ev, rng[1])
+    inner = None
+    if Q.is_call(ev, hi, "len") and hi[2]:
+        inner = hi[2][0]
+    elif hi[0] == "len":
+        inner = hi[1]
+    if inner is None:
+        return False
+    b, p = sroot(ev, inner)
+    return src.exact(b, p, ev) and _plain_view(ev, inner)
+
+
+def _plain_view(ev, t):
+    """no index / adaptor between the term and its root: it is the whole collection"""
+    while isinstance(t, tuple) and t:
+        if t[0] == "cast":
+            t = t[2]
+        elif t[0] == "field":
+            t = t[1]
+        elif t[0] == "call":
+            c = ev.callee(t[1])
+            if c is not None and not c.local and c.name in ("deref", "deref_mut", "as_ref", "as_mut", "as_slice", "as_mut_slice", "borrow", "borrow_mut") and t[2]:
+                t = t[2][0]
+            else:
+                return False
+        elif t[0] in ("index", "variant"):
+            return False
+        else:
+            return True
+    return True
+
+
+class _IndexedSrc(object):
+    """`source[i]` for the index variable i of an index loop over the source."""
+    def __init__(self, src, idx):
+        self.src = src
+        self.idx = idx
+
+    def exact(self, b, p, ev):
+        return False
+
+    def match_term(self, ev, t):
+        # the receiver is source[idx] (built-in or Index::index), possibly through views
+        seen_idx = False
+        while isinstance(t, tuple) and t:
+            if t[0] == "cast":
+                t = t[2]
+            elif t[0] == "index":
+                if Q.strip(ev, t[2]) != self.idx or seen_idx:
+                    return False
+                seen_idx = True
+                t = t[1]
+            elif t[0] == "call":
+                c = ev.callee(t[1])
+                if c is None or c.local or not t[2]:
+                    return False
+                if c.name in ("index", "index_mut", "get_unchecked", "get_unchecked_mut") and len(t[2]) == 2:
+                    if Q.strip(ev, t[2][1]) != self.idx or seen_idx:
+                        return False
+                    seen_idx = True
+                    t = t[2][0]
+                elif c.name in TRANSPARENT:
+                    t = t[2][0]
+                else:
+                    return False
+            elif t[0] in ("field", "variant"):
+                if not seen_idx:
+                    if t[0] == "field" and not (t[3] or "").startswith("shred::") and t[3] != "tuple":
+                        t = t[1]   # the inside of a Box / Unique: still the element itself
+                        continue
+                    return False   # a part of the element, not the element
+                break
+            else:
+                break
+        if not seen_idx:
+            return False
+        b, p = sroot(ev, t)
+        return self.src.exact(b, p, ev)
 
 
 def _traversal(ev, L, fam, fname, depth):
@@ -127,7 +235,8 @@ def _traversal(ev, L, fam, fname, depth):
         raise _Bad("traversal of the source at %s is not full-forward: %s" % (site, cls), site)
     if [n for n, _ in L.stages if n not in ("enumerate",)]:
         raise _Bad("elements pass through %s before being handled (%s)" % ([n for n, _ in L.stages], site), site)
-    epath = ["#1"] if (L.iter_ty or "").startswith("std::iter::Enumerate<") or [n for n, _ in L.stages if n == "enumerate"] else []
+    # a `for (i, x) in it.enumerate()` loop yields pairs; in a modelled chain the pair is already taken apart
+    epath = ["#1"] if (L.kind == "for" and (L.iter_ty or "").startswith("std::iter::Enumerate<")) else []
     counts = set()
     shape = None
     sites = [site]
